@@ -702,4 +702,7 @@ func runC11(ctx *core.Ctx) {
 
 	// the project name from several sources at once × every default that embeds it (c11_names.go)
 	c11NamesOracle(ctx)
+
+	// the defaulting glue of load / loadYamlModel inside the composed model (c11_loadtail.go)
+	c11LoadTailStream(ctx)
 }
